@@ -185,7 +185,7 @@ class Judge:
             cases.append((exp[1], True, 0))
             # single-item bodies and the corpus: every byte value at every position (each decoder sees all 256 values in
             # every position of a valid message); elsewhere the boundary alphabet
-            wide = info.ident.count(";") == 0 or info.ident.startswith("corpus:")
+            wide = (info.ident.count(";") == 0 and info.host.startswith("struct")) or info.ident.startswith("corpus:")
             if wide:
                 ctx.counts["full_byte_substitution_bases"] += 1
             for d in deviations(exp[1], range(256) if wide else B if tier != "quick" else (0x00, 0x01, 0xFE, 0xFF)):
@@ -230,7 +230,7 @@ def run(tier, seed):
         "short_string_alphabet": [hex(b) for b in B],
         "exhaustive": True,
         "rule": "per valid program: every byte string over B up to length 2/3 (and over the 5-symbol reduction up to 3/4) "
-        "under entry modes/offsets, plus every prefix, single substitution (all 256 byte values for single-item bodies and the corpus, the boundary alphabet elsewhere), single insertion and 1-2 byte suffix of up to "
+        "under entry modes/offsets, plus every prefix, single substitution (all 256 byte values for single-item struct bodies and the corpus, the boundary alphabet elsewhere), single insertion and 1-2 byte suffix of up to "
         "3/8 valid serializations (thorough: also every pair of substitutions and substitution+truncation - deviation bound 2 - for bodies of at most two items); each (program, bytes, mode, offset) is one distinct case (non-trivial = all but the "
         "empty string per program); compared with M10: value tree incl. nested byte_size, final position, mode, "
         "ValueError exactly where M10 raises it, termination within 3,000,000 reader calls",
